@@ -152,6 +152,24 @@ pub fn c11(ctx: &mut Ctx) {
         }
         bases.push((format!("synthetic:{}", p.shape_class()), cfg, c1, c2));
     }
+    // boundary-valid configurations: every bound hit from the inside (2 and 15 layers, steps 1 and
+    // 4, last bound 0 and 15, blow-up 1 and 16, 1 and 48 queries, 20 and 50 PoW bits)
+    for (li, n_layers) in [2u32, 3, 14, 15].iter().enumerate() {
+        for (vi, (step, last, blow, nq, pow)) in [(1u32, 0u32, 1u32, 1u64, 20u8), (4, 15, 16, 48, 50), (1, 15, 1, 48, 20), (4, 0, 16, 1, 50)].iter().enumerate() {
+            let p = crate::toyprover::ToyParams {
+                log_trace: step * (n_layers - 1) + last,
+                log_blowup: *blow,
+                steps: std::iter::once(0).chain(std::iter::repeat(*step).take((*n_layers - 1) as usize)).collect(),
+                log_last: *last,
+                n_queries: *nq,
+                pow_bits: *pow,
+                n_friendly: (li * 7 + vi) as u64,
+                seed: 0,
+            };
+            let cfg = serde_json::to_value(crate::toyprover::config_for(&p, p.n_queries, p.pow_bits)).unwrap();
+            bases.push((format!("boundary:{}", p.shape_class()), cfg, 2, 1));
+        }
+    }
     let mut unit = 0u64;
     for (bi, (name, cfg, c1, c2)) in bases.iter().enumerate() {
         let mut rng = Rng::derive(ctx.seed, scenario, bi as u64);
